@@ -2,7 +2,11 @@ import numpy as np
 
 def fs_ctr_to_aff_ctr(fs_center, fs_radius):
     fs_center_norm = np.abs(fs_center)
-    fs_normalized_ctr = fs_center / fs_center_norm
+
+    # a disk centered at the origin has no preferred direction (and its
+    # affine center is the origin again), so don't divide by zero there
+    fs_normalized_ctr = fs_center / np.where(fs_center_norm == 0,
+                                             1.0, fs_center_norm)
 
     zmin = np.tan(np.arctan(fs_center_norm) - fs_radius)
     zmax = np.tan(np.arctan(fs_center_norm) + fs_radius)
